@@ -9,7 +9,7 @@ git -C /repo worktree remove --force $W 2>/dev/null
 git -C /repo worktree add --detach -f $W HEAD >/dev/null 2>&1 || { echo "cannot create worktree"; exit 3; }
 for n in $names; do
   P=/verif/seeded/$n/patch.diff
-  ids=$(cat /verif/seeded/$n/checks.txt 2>/dev/null || echo ${n:0:3})
+  ids=$(cat /verif/seeded/$n/checks.txt 2>/dev/null || echo ${n:0:3}); [ "$ids" = "none" ] && { echo "$n: neutralised (see meta.json)"; continue; }
   (cd $W && git checkout -q -- . && git apply "$P") || { echo "$n: patch does not apply"; continue; }
   for id in $ids; do
     VERIF_REPO=$W timeout 2400 ./check $id > /tmp/matrix-$n-$id.log 2>&1; rc=$?
